@@ -130,7 +130,7 @@ def regen():
     return changed
 
 
-GEN_FILES = [("dump-const", "ConstGen.v"), ("dump-air", "AirGen.v")]
+GEN_FILES = [("dump-const", "ConstGen.v"), ("dump-air", "AirGen.v"), ("dump-opts", "OptGen.v")]
 
 
 def coq_makefile():
